@@ -403,32 +403,275 @@ def check_library(ctx, rng, names, datas, n_pres, batch):
     # relational oracle: same physical data => same non-dimensional content and same evaluations
     good = [x for x in per_pres if x is not None]
     for other in good[1:]:
-        for nm in names:
-            a, b = good[0][0].get(nm), other[0].get(nm)
-            if a is None or b is None:
-                continue
-            same = (a['H'] is None) == (b['H'] is None) and (a['S'] is None) == (b['S'] is None) and len(a['cp']) == len(b['cp'])
-            if same and L.all_plain(a) and L.all_plain(b):
-                same = all(cmp_num(x['num'], y['num'], 1e-11) for x, y in
-                           [(a[k], b[k]) for k in ('H', 'S') if a[k] is not None] +
-                           [(p[1], q[1]) for p, q in zip(a['cp'], b['cp'])])
-                same = same and cmp_num(a['Tref'], b['Tref'], 1e-11)
-            if not same:
-                ctx.violation('the same data in two unit presentations load differently', {'a': good[0][2], 'b': other[2], 'group': nm},
-                              expected=a, observed=b)
-            for (f1, T1, v1), (f2, T2, v2) in zip(good[0][1].get(nm, []), other[1].get(nm, [])):
-                if isinstance(v1, float) and isinstance(v2, float):
-                    if not cmp_num(v1, v2, 1e-8) and abs(v1 - v2) > 1e-9:
-                        ctx.violation('the same data in two unit presentations evaluate differently',
-                                      {'a': good[0][2], 'b': other[2], 'group': nm, 'T': T1, 'method': f1}, expected=v1, observed=v2)
-                elif v1 != v2:
+        relate(ctx, names, good[0], other)
+
+
+def relate(ctx, names, first, other):
+    """two loaded presentations (observed library, evaluations, input) of the same physical data: same non-dimensional content,
+    same evaluations"""
+    for nm in names:
+        a, b = first[0].get(nm), other[0].get(nm)
+        if a is None or b is None:
+            continue
+        same = (a['H'] is None) == (b['H'] is None) and (a['S'] is None) == (b['S'] is None) and len(a['cp']) == len(b['cp'])
+        if same and L.all_plain(a) and L.all_plain(b):
+            same = all(cmp_num(x['num'], y['num'], 1e-11) for x, y in
+                       [(a[k], b[k]) for k in ('H', 'S') if a[k] is not None] +
+                       [(p[1], q[1]) for p, q in zip(a['cp'], b['cp'])])
+            same = same and cmp_num(a['Tref'], b['Tref'], 1e-11)
+        if not same:
+            ctx.violation('the same data in two unit presentations load differently', {'a': first[2], 'b': other[2], 'group': nm},
+                          expected=a, observed=b)
+        for (f1, T1, v1), (f2, T2, v2) in zip(first[1].get(nm, []), other[1].get(nm, [])):
+            if isinstance(v1, float) and isinstance(v2, float):
+                if not cmp_num(v1, v2, 1e-8) and abs(v1 - v2) > 1e-9:
                     ctx.violation('the same data in two unit presentations evaluate differently',
-                                  {'a': good[0][2], 'b': other[2], 'group': nm, 'T': T1, 'method': f1}, expected=v1, observed=v2)
-            ctx.count('relational_pairs')
+                                  {'a': first[2], 'b': other[2], 'group': nm, 'T': T1, 'method': f1}, expected=v1, observed=v2)
+            elif v1 != v2:
+                ctx.violation('the same data in two unit presentations evaluate differently',
+                              {'a': first[2], 'b': other[2], 'group': nm, 'T': T1, 'method': f1}, expected=v1, observed=v2)
+        ctx.count('relational_pairs')
 
 
 def classify_error(res):
     return None
+
+
+# ------------------------------------------------------------------------------------------------- libraries over several files
+# A library may be split over files (`include:`); every file has its own `units:` block, and a bare number is read in the
+# default unit of the file it is written in.  The same data written in one file and written over a parent and included files
+# whose units blocks differ load to the same correlations; a bare number of a kind the file's own block leaves out is rejected
+# whatever the blocks of the files around it say.
+FILE_SHAPES = [
+    # (tag, [(label, parent label or None, include path as written in the parent)])
+    ('child', [('root', None, None), ('a', 'root', 'part.yaml')]),
+    ('child_subdir', [('root', None, None), ('a', 'root', 'sub/part.yaml')]),
+    ('two_children', [('root', None, None), ('a', 'root', 'first.yaml'), ('b', 'root', 'more/second.yaml')]),
+    ('chain', [('root', None, None), ('a', 'root', 'mid.yaml'), ('b', 'a', 'leaf.yaml')]),
+    ('chain_subdirs', [('root', None, None), ('a', 'root', 'sub/mid.yaml'), ('b', 'a', 'deeper/leaf.yaml')]),
+    ('chain_and_sibling', [('root', None, None), ('a', 'root', 'x/mid.yaml'), ('b', 'a', 'leaf.yaml'), ('c', 'root', 'other.yaml')]),
+]
+
+
+def other_unit(rng, kind, not_this):
+    cands = [u for u in L.UNITS[kind] if not_this is None or L.unit_info(u)[0] != L.unit_info(not_this)[0]]
+    return rng.choice(cands)
+
+
+def file_blocks(rng, shape):
+    """a units block per file: the root's is full more often than not, a file below differs from the file including it in most
+    kinds (another unit, or the kind left out)"""
+    blks = {}
+    for lab, parent, _ in shape:
+        if parent is None:
+            blks[lab] = dict((k, rng.choice(L.UNITS[k])) for k in ('H', 'S', 'Cp', 'T')) if rng.random() < 0.7 else pick_units_block(rng)
+            continue
+        up, blk = blks[parent], {}
+        for k in ('H', 'S', 'Cp', 'T'):
+            c = rng.random()
+            if c < 0.65:
+                blk[k] = other_unit(rng, k, up.get(k))
+            elif c < 0.75 and k in up:
+                blk[k] = up[k]
+        blks[lab] = blk
+    return blks
+
+
+def file_paths(shape):
+    """label -> path of the file relative to the directory of the root file (an include is relative to the including file)"""
+    rel = {}
+    for lab, parent, inc in shape:
+        rel[lab] = 'library.yaml' if parent is None else os.path.normpath(os.path.join(os.path.dirname(rel[parent]), inc))
+    return rel
+
+
+def show_exp(exp):
+    return {'Tref': str(exp['Tref']), 'H': None if exp['H'] is None else str(exp['H']), 'S': None if exp['S'] is None else str(exp['S']),
+            'cp': [[str(T), str(v)] for T, v in exp['cp']], 'range': None if exp['range'] is None else [str(x) for x in exp['range']]}
+
+
+def unshow_exp(w):
+    return {'H': None if w['H'] is None else Fraction(w['H']), 'S': None if w['S'] is None else Fraction(w['S']),
+            'cp': [(Fraction(a), Fraction(b)) for a, b in w['cp']], 'Tref': Fraction(w['Tref']),
+            'range': None if w['range'] is None else (Fraction(w['range'][0]), Fraction(w['range'][1]))}
+
+
+def write_file_tree(ctx, shape, blks, groups_of):
+    """write the files of one library; returns (directory, {relative path: text}, driver encoding of the root file)"""
+    from pgradd import yaml_io
+    d = L.new_dir(ctx, 'c12i-')
+    rel = file_paths(shape)
+    texts, jfiles = {}, {}
+    for lab, parent, inc in shape:
+        path = os.path.join(d, rel[lab])
+        os.makedirs(os.path.dirname(path), exist_ok=True)
+        incs = [i for l2, p2, i in shape if p2 == lab]
+        tree = {'units': units_block_tree(blks[lab]), 'include': incs,
+                'groups': [(nm, {'thermochem': e}) for nm, e in groups_of[lab]]}
+        texts[rel[lab]] = L.write_file(path, tree)
+        ctx.count('files_written')
+        expect_tree = {'units': tree['units'], 'groups': dict(tree['groups'])}
+        if incs:
+            expect_tree = {'units': tree['units'], 'include': incs, 'groups': dict(tree['groups'])}
+        if not L.tree_equal(yaml_io.parse(texts[rel[lab]]), expect_tree):
+            ctx.assumption('A-yaml', False, 'PyYAML tree differs from the generated tree for %r' % texts[rel[lab]][:300])
+        jfiles[lab] = {'units': [[L.KIND_NAME[k], u] for k, u in blks[lab].items()],
+                       'groups': [[nm, L.jtree({'thermochem': e})] for nm, e in groups_of[lab]], 'include': []}
+    for lab, parent, inc in shape:
+        if parent is not None:
+            jfiles[parent]['include'].append(jfiles[lab])
+    return d, texts, jfiles['root']
+
+
+def observe_loaded(ctx, res, names, datas, exps, inp):
+    """check a loaded library against the expected content group by group; returns (observed, evaluations, input)"""
+    obs = L.obs_library(res)
+    evals = {}
+    for nm, g in zip(names, datas):
+        o = obs.get(nm)
+        if o is None:
+            ctx.violation('a group of the file is missing after loading', dict(inp, group=nm), expected=nm, observed=sorted(obs))
+            continue
+        check_against_expected(ctx, o, exps[nm], dict(inp, group=nm))
+        ev = evaluate(res[nm]['thermochem'], eval_points(g, res[nm]['thermochem']))
+        for nmf, T, v in ev:
+            ctx.count('evaluations_' + nmf)
+            if isinstance(v, str):
+                missing = (nmf == 'get_HoRT' and g['H'] is None) or (nmf == 'get_SoR' and g['S'] is None) or (nmf == 'get_CpoR' and not g['cp'])
+                if not (missing and v == 'err:incomplete'):
+                    ctx.violation('evaluating a loaded correlation does not give a plain finite number',
+                                  dict(inp, group=nm, T=T, method=nmf), expected='plain finite number', observed=v)
+        evals[nm] = ev
+    return obs, evals, inp
+
+
+def include_cases(ctx, rng, n, batch13):
+    for i in range(n):
+        tag, shape = rng.choice(FILE_SHAPES)
+        labels = [lab for lab, _, _ in shape]
+        k = rng.randint(len(labels), len(labels) + 2)
+        names = rng.sample(GROUP_NAMES, k)
+        datas = []
+        for _ in names:
+            g = gen_group(rng)
+            while g['H'] is None and g['S'] is None and not g['cp']:
+                g = gen_group(rng)
+            datas.append(g)
+        blks = file_blocks(rng, shape)
+        # every file gets a group; the rest go anywhere
+        owner = dict(zip(names, labels + [rng.choice(labels) for _ in range(k - len(labels))]))
+        groups_of = dict((lab, []) for lab in labels)
+        exps, bare = {}, 0
+        for nm, g in zip(names, datas):
+            lab = owner[nm]
+            entry, exp, forms = present(rng, g, blks[lab], rng.choice(['dim', 'dim', 'dim', None]))
+            groups_of[lab].append((nm, entry))
+            exps[nm] = exp
+            if lab != 'root':
+                bare += sum(1 for f in forms.values() if 'bare' in f)
+            for kf, f in forms.items():
+                ctx.count('form_%s_%s' % (kf, f))
+        fault = None
+        if rng.random() < 0.2:
+            # a bare number, in a file below the root, of a kind its own block leaves out and the block of a file above it has
+            cands = [(lab, kk) for lab, parent, _ in shape if parent is not None for kk in ('H', 'S')
+                     if kk not in blks[lab] and any(kk in blks[a] for a in ancestors(shape, lab))]
+            if cands:
+                lab, kk = rng.choice(cands)
+                nm = rng.choice([x for x in GROUP_NAMES if x not in names])
+                groups_of[lab].append((nm, {'T_ref': Q(Fraction(300), 'K'), {'H': 'H_ref', 'S': 'S_ref'}[kk]: rnd_dec(rng, -50, 50, 2)}))
+                fault = {'file': file_paths(shape)[lab], 'group': nm, 'kind': L.KIND_NAME[kk]}
+        d, texts, jf = write_file_tree(ctx, shape, blks, groups_of)
+        st, res = L.load_library(os.path.join(d, 'library.yaml'))
+        inp = {'files': texts, 'layout': tag, 'expect': dict((nm, show_exp(e)) for nm, e in exps.items())}
+        ctx.case(json.dumps(texts, sort_keys=True), None)
+        ctx.count('include_cases')
+        ctx.count('include_layout_' + tag)
+        ctx.count('include_bare_values_below_the_root', bare)
+        batch13.append(({'op': 'c13.load', 'file': jf}, (st, res if st == 'err' else L.obs_library(res)), inp))
+        if fault is not None:
+            ctx.count('include_fault_missing_unit')
+            if st != 'err' or res != 'inputData':
+                ctx.violation('a bare number of a kind the units block of its own file leaves out is not rejected (a file that includes '
+                              'it has a default unit of that kind)', dict(inp, expect_error='inputData', fault=fault),
+                              expected='inputData', observed=res if st == 'err' else 'loaded')
+            continue
+        if st == 'err':
+            ctx.violation('a consistent library split over files with different units blocks fails to load', inp, expected='loaded', observed=res)
+            continue
+        multi = observe_loaded(ctx, res, names, datas, exps, inp)
+        # the same data in ONE file (one block, another draw of forms)
+        blk1 = pick_units_block(rng)
+        pres = [present(rng, g, blk1, None) for g in datas]
+        st1, res1, text1 = load_presentation(ctx, names, blk1, [e for e, _, _ in pres])
+        if st1 != 'ok':
+            ctx.violation('a consistent library in a legal unit presentation fails to load', {'file': text1}, expected='loaded', observed=res1)
+            continue
+        single = observe_loaded(ctx, res1, names, datas, dict((nm, e) for nm, (_, e, _) in zip(names, pres)), {'file': text1})
+        relate(ctx, names, single, multi)
+
+
+def ancestors(shape, lab):
+    up = dict((l, p) for l, p, _ in shape)
+    out = []
+    while up[lab] is not None:
+        lab = up[lab]
+        out.append(lab)
+    return out
+
+
+def compare_batch13(ctx, batch13):
+    """the tie for libraries over several files: the Lean model of the loaders composed with the model of _do_load (c13.load:
+    every file's values are read under that file's own units block, then the files are merged)"""
+    from . import c13
+    replies = ctx.model([b[0] for b in batch13])
+    if replies is None:
+        return
+    for (req, (st, res), inp), rep in zip(batch13, replies):
+        ctx.count('corr_c13.load')
+        if 'err' in rep:
+            if rep['err'] == 'unmodelled':
+                # over the unit table of the working tree some value is not a plain number (merging those is outside the model
+                # of _do_load).  The generator writes only units of the right kind, so this is the unit table's doing; the
+                # property oracle above has reported it if the implementation shows it too
+                ctx.count('corr_c13.load_unmodelled')
+                if st == 'ok' and all(o is None or L.all_plain(o) for o in res.values()):
+                    ctx.disagree('corr:c13.load', inp, res, rep)
+                continue
+            if st != 'err' or res != rep['err']:
+                ctx.disagree('corr:c13.load', inp, res if st == 'err' else 'loaded', rep)
+            continue
+        ml = dict((nm, o) for nm, o in rep['ok'])
+        ok = st == 'ok' and set(ml) == set(res)
+        if ok:
+            for nm, o in res.items():
+                if (o is None) != (ml[nm] is None) or (o is not None and not c13.model_state_close(o, ml[nm])):
+                    ok = False
+        if not ok:
+            ctx.disagree('corr:c13.load', inp, res, rep)
+
+
+def replay_files(ctx, inp):
+    d = L.new_dir(ctx, 'c12r-')
+    for relp, text in inp['files'].items():
+        path = os.path.join(d, relp)
+        os.makedirs(os.path.dirname(path), exist_ok=True)
+        with open(path, 'w') as f:
+            f.write(text)
+    st, res = L.load_library(os.path.join(d, 'library.yaml'))
+    if 'expect_error' in inp:
+        if st != 'err' or res != inp['expect_error']:
+            ctx.violation('recorded files are not rejected as specified', inp, expected=inp['expect_error'], observed=res if st == 'err' else 'loaded')
+        return
+    if st != 'ok':
+        ctx.violation('recorded library does not load', inp, expected='loaded', observed=res)
+        return
+    obs = L.obs_library(res)
+    for nm, w in inp.get('expect', {}).items():
+        if obs.get(nm) is None:
+            ctx.violation('group missing', inp, expected=nm, observed=sorted(obs))
+        else:
+            check_against_expected(ctx, obs[nm], unshow_exp(w), dict(inp, group=nm))
 
 
 # ---------------------------------------------------------------------------------------------------------------- faults
@@ -610,6 +853,9 @@ def run(ctx):
         if ctx.time_left() < 120:
             break
     fault_cases(ctx, rng, ctx.n(400, 6000), batch)
+    batch13 = []
+    include_cases(ctx, rng, ctx.n(120, 2500), batch13)
+    compare_batch13(ctx, batch13)
     zero_cases(ctx, rng, batch)
     boundary_cases(ctx)
     shape_cases(ctx, rng, batch)
@@ -618,7 +864,8 @@ def run(ctx):
     reach_floor(ctx, ['form_H_bare', 'form_H_explicit', 'form_H_nd', 'form_S_bare', 'form_S_explicit', 'form_S_nd',
                       'form_Tref_bare', 'form_Tref_default', 'form_Tref_explicit', 'fault_missing_unit', 'fault_wrong_dim_explicit',
                       'fault_wrong_dim_default', 'fault_bad_string', 'inconsistent_data', 'model_err_inputData',
-                      'model_err_unitsParse', 'model_ok', 'relational_pairs', 'wrong_dim_loaded_nonplain', 'zero_cases', 'shape_cases'])
+                      'model_err_unitsParse', 'model_ok', 'relational_pairs', 'wrong_dim_loaded_nonplain', 'zero_cases', 'shape_cases',
+                      'include_cases', 'include_bare_values_below_the_root', 'include_fault_missing_unit'])
 
 
 def reach_floor(ctx, names):
@@ -798,6 +1045,9 @@ def replay(ctx, rec):
     before = len(ctx.violations)
     if 'read_before' in inp:
         unit_semantics(ctx, [inp['read_before'] + [inp['unit']]])
+        return len(ctx.violations) == before
+    if 'files' in inp or ('b' in inp and 'files' in inp['b']):
+        replay_files(ctx, inp if 'files' in inp else inp['b'])
         return len(ctx.violations) == before
     d = L.new_dir(ctx, 'c12r-')
     path = os.path.join(d, 'library.yaml')
